@@ -15,8 +15,8 @@ pub fn def() -> CheckDef {
         id: "C11",
         level: "fault_enumeration",
         cases: |t| match t {
-            Tier::Quick => 24,
-            Tier::Thorough => 600,
+            Tier::Quick => 26,
+            Tier::Thorough => 610,
         },
         gen,
         run,
@@ -31,6 +31,17 @@ pub fn def() -> CheckDef {
 
 pub fn gen(seed: u64, idx: u64, tier: Tier) -> Case {
     let mut rng = Rng::for_case(seed, "C11", idx);
+    let nstale = if tier == Tier::Quick { 2 } else { 10 };
+    let total = if tier == Tier::Quick { 26 } else { 610 };
+    if idx >= total - nstale {
+        // "every subsequent sequence of API calls" includes calls through a handle whose own
+        // stream has been removed and whose directory slot was taken over (src/stale.rs); one
+        // case = a batch of such scenarios on undamaged files
+        let mut c = Case::new("C11", "stale-batch", if idx % 2 == 0 { 3 } else { 4 });
+        c.params.insert("seed".into(), (rng.next_u64() >> 2) as i64);
+        c.params.insert("scenarios".into(), 1500);
+        return c;
+    }
     let version = if rng.chance(1, 2) { 3 } else { 4 };
     let mut c = Case::new("C11", "enumerate", version);
     c.params.insert("seed".into(), (rng.next_u64() >> 2) as i64);
@@ -157,6 +168,36 @@ pub fn run(case: &Case, _known: &BTreeSet<String>) -> Outcome {
         o.replay_case = Some(rc);
         o.violations.push(Violation { property: "C11".into(), rule: v.0, site: v.1, msg: format!("[{}] {}", desc, v.2), step: 0 });
     };
+    if case.mode == "stale-handle" {
+        return crate::stale::run(case, crate::stale::Judge { property: "C11", image: false, bystanders: false });
+    }
+    if case.mode == "stale-batch" {
+        let mut rng = Rng::new(case.param("seed", 1) as u64);
+        let mut hashes: BTreeSet<u64> = BTreeSet::new();
+        for _ in 0..case.param("scenarios", 100) {
+            let mut sc = Case::new("C11", "stale-handle", case.version);
+            sc.bufsize = *rng.pick(crate::gen::BUFSIZES);
+            sc.ops = crate::stale::gen_ops(&mut rng);
+            let r = crate::stale::run(&sc, crate::stale::Judge { property: "C11", image: false, bystanders: false });
+            o.stats.sub_runs += 1;
+            o.stats.seam_events += r.stats.seam_events;
+            o.stats.api_calls += r.stats.api_calls;
+            hashes.insert(r.stats.trace_hash);
+            for (k, v) in r.stats.probes.iter() {
+                *o.stats.probes.entry(k.clone()).or_insert(0) += v;
+            }
+            if let Some(v) = r.violations.into_iter().next() {
+                o.violations.push(v);
+                o.replay_case = Some(sc);
+                break;
+            }
+        }
+        *o.stats.faults_fired.entry("none".into()).or_insert(0) += 1;
+        o.stats.state_hashes = hashes.iter().copied().collect();
+        o.stats.trace_hash = hashes.iter().fold(11, |a, b| a ^ crate::prng::mix(*b));
+        o.stats.nontrivial = true;
+        return o;
+    }
     if case.mode == "single-image" {
         if let Init::Image(b) = &case.init {
             let (v, k) = run_ops_on(b, &case.ops, bufsize);
